@@ -61,7 +61,9 @@ vfn!(v6, 6);
 vfn!(v7, 7);
 const VALIDATORS: [&ValidatorFn; 8] = [&v0, &v1, &v2, &v3, &v4, &v5, &v6, &v7];
 
-const KEYS: [&str; 11] = ["iss", "sub", "aud", "jti", "a", "b", "c", "iat", "é", "exp", "nbf"];
+// the last four look like paths / pointers / indices into the payload: a validator registered under such a name is a
+// validator for a member of exactly that name (normally absent), never for the member the "path" would lead to
+const KEYS: [&str; 15] = ["iss", "sub", "aud", "jti", "a", "b", "c", "iat", "é", "exp", "nbf", "/iss", "/a", "a.b", "0"];
 
 #[derive(Clone, Debug, Serialize, Deserialize, PartialEq)]
 pub enum Corruption {
@@ -428,7 +430,7 @@ fn case(proto: Proto, layer: Layer) -> BoxedStrategy<ValCase> {
     1 => any::<u8>().prop_map(Corruption::Truncate),
   ];
   // the batteries-included parser has its own validators for exp/nbf; iat (index 7) only carries plain values here
-  let tok = (vec((0u8..11, member_value()), 0..5), corruption, prop_oneof![12 => Just(None), 1 => (0u8..5).prop_map(Some)]).prop_map(|(members, corruption, non_object)| TokVar { members, corruption, non_object });
+  let tok = (vec((0u8..15, member_value()), 0..5), corruption, prop_oneof![12 => Just(None), 1 => (0u8..5).prop_map(Some)]).prop_map(|(members, corruption, non_object)| TokVar { members, corruption, non_object });
   // histories: some tokens repeat the previous one verbatim (same text), authentic again or presented under a wrong key /
   // footer / assertion - a parser that remembers its last token must not behave differently
   let toks = vec((tok, 0u8..8), 1..=6).prop_map(|v| {
@@ -444,7 +446,7 @@ fn case(proto: Proto, layer: Layer) -> BoxedStrategy<ValCase> {
     out
   });
   let behaviour = prop_oneof![3 => 0u8..5, 2 => 5u8..30];
-  (gen::bytes32(), vec((0u8..11, behaviour), 0..5), toks, prop_oneof![Just(None), gen::jsonish(6).prop_map(Some)], prop_oneof![Just(None), gen::jsonish(6).prop_map(Some)], any::<bool>(), prop_oneof![3 => Just(None), 1 => (0u8..4).prop_map(Some)], prop_oneof![3 => Just(vec![]), 1 => vec((0u8..11, 0u8..4), 1..3)])
+  (gen::bytes32(), vec((0u8..15, behaviour), 0..5), toks, prop_oneof![Just(None), gen::jsonish(6).prop_map(Some)], prop_oneof![Just(None), gen::jsonish(6).prop_map(Some)], any::<bool>(), prop_oneof![3 => Just(None), 1 => (0u8..4).prop_map(Some)], prop_oneof![3 => Just(vec![]), 1 => vec((0u8..15, 0u8..4), 1..3)])
     .prop_map(move |(seed, validators, tokens, footer, assertion, via_extend, late_from, checks)| ValCase { proto, layer, seed, validators, tokens, footer, assertion, via_extend, late_from, checks })
     .boxed()
 }
